@@ -285,6 +285,39 @@ def rule_A4(ctx):
                 r.finding(p, "found-not-pushed", loc(f["hir"]), "the identifier was found in the input value but the path returns Ok with operand delta %s instead of pushing it" % d)
         if not seen_lookup:
             r.finding(p, "no-input-lookup", loc(f["hir"]), "resolve() never looks the identifier up in the current input value (get_access_addr is not called)")
+        # the input is consulted whatever its type: once get_current_value() answered Some, no path reaches the host's resolve
+        # (or the unit answer) without having passed the lookup - must-pass-through on resolve()'s MIR
+        from . import mirq
+        mir = f["mir"]
+        bl = mir["blocks"]
+        asg = mirq.assignments(mir)
+        looks_up = set([q for q, g_ in F.fns.items() if g_["crate"] == f["crate"] and any(b_["term"]["k"] == "Call" and last(b_["term"].get("def") or "") == "get_access_addr" for b_ in g_["mir"]["blocks"])])
+        def is_lookup(bi_, b_):
+            t_ = b_["term"]
+            return t_["k"] == "Call" and (last(t_.get("def") or "") == "get_access_addr" or (t_.get("def") in looks_up) or (t_.get("resolved") in looks_up))
+        def is_host(bi_, b_):
+            t_ = b_["term"]
+            return t_["k"] == "Call" and last(t_.get("def") or "") == "resolve" and "GarnishData" in (t_.get("def") or "")
+        some_blocks = []
+        for bi_, b_ in enumerate(bl):
+            t_ = b_["term"]
+            if b_["cleanup"] or t_["k"] != "SwitchInt":
+                continue
+            l_ = mirq.op_local(t_["discr"])
+            for og in (mirq.origins(mir, l_, asg) if l_ is not None else []):
+                if og[1] != "term" and og[2].get("k") == "Discriminant":
+                    src = og[2]["place"]["l"]
+                    if any(o2[1] == "term" and last(o2[2].get("def") or "") == "get_current_value" for o2 in mirq.origins(mir, src, asg)):
+                        some_blocks.extend(tg for v, tg in t_["targets"] if v == 1)
+                        if not any(v == 1 for v, _tg in t_["targets"]):
+                            some_blocks.append(t_["otherwise"])
+        r.examine((p, "lookup-for-every-input-type"), True, {"fn": "resolve", "some_input_blocks": len(some_blocks)})
+        if not some_blocks:
+            r.finding(p, "input-presence-test-not-found", loc(f["hir"]), "resolve() has no branch on get_current_value(): cannot show that an input value is consulted before the host")
+        else:
+            w = mirq.path_avoiding_to(mir, some_blocks, is_lookup, lambda bi_, b_: is_host(bi_, b_) and not is_lookup(bi_, b_))
+            if w is not None:
+                r.finding(p, "input-lookup-skipped", loc(bl[w[-1]]["term"]), "resolve() can reach the host's resolve callback with an input value present and without having looked the identifier up in it (for some input types the lookup is skipped): an input such as the single pair `:a = 5` then no longer resolves `a` - the identifier is offered to the host and evaluates to unit")
     r.floor("instruction functions that can defer to the host", n_defer_fns, 10)
     r.floor("paths with a host callback", n_paths, 20)
     # in resolve(): an accepted/declined host call is the only way past the input lookup without a push
@@ -303,6 +336,8 @@ def rule_A5(ctx):
     model = get_model(ctx)
     al = _allow("callback_exceptions.json").get("A5", {})
     n = 0
+    denoted_seen = set()
+    fn_shapes = {}
     for p in sorted(instruction_fns(F)):
         f = F.fns[p]
         name = f["name"]
@@ -317,6 +352,7 @@ def rule_A5(ctx):
             for e in ts[3]:
                 if e[0] == "defer":
                     shapes.add((e[2], e[3], e[-2][2]))
+        fn_shapes[name] = (p, len(shapes))
         for left, right, pops in sorted(shapes, key=repr):
             n += 1
             ok = True
@@ -347,6 +383,7 @@ def rule_A5(ctx):
                     if tg != ("tag", ad):
                         if tg == ("get", "get_type", ad) and al.get(name, {}).get(side + "-type-denoted"):
                             r.info.append("%s: %s operand offered with the type it denotes: %s" % (name, side, al[name][side + "-type-denoted"]))
+                            denoted_seen.add((name, side))
                             continue
                         ok = False
                         why = "the %s operand %s is offered with type %s instead of its own type" % (side, _fmt(ad), _fmt(tg))
@@ -354,6 +391,15 @@ def rule_A5(ctx):
             if not ok:
                 r.finding(p, "defer-args:%s|%s" % (_fmt(left), _fmt(right)), loc(f["hir"]), "`%s` offers the host defer_op(%s, %s): %s" % (name, _fmt(left), _fmt(right), why))
     r.floor("distinct defer_op argument shapes", n, 8)
+    # the documented exception is two-sided: where the host is to be told the type a Type operand DENOTES (the cast target of
+    # `value ~# #0` is Number, not Type), an offer that carries only the operand's own tag hides the target from the host
+    for name_, sides in sorted(al.items()):
+        for key_, why_ in sorted(sides.items()) if isinstance(sides, dict) else []:
+            if not key_.endswith("-type-denoted"):
+                continue
+            side_ = key_[: -len("-type-denoted")]
+            if name_ in fn_shapes and fn_shapes[name_][1] and (name_, side_) not in denoted_seen:
+                r.finding(fn_shapes[name_][0], "denoted-type-not-offered:%s:%s" % (name_, side_), "-", "`%s` no longer offers the host the type its %s operand denotes (%s): the host is told the operand's own tag (Type) and cannot tell which cast was asked for" % (name_, side_, why_))
     # two-operand value constructors: the operand popped second is the left / first component
     right_first = spec("templates.json").get("right_first_runtime", {"make_pair": "Pair is emitted right operand first"})
     n_ctor = 0
